@@ -1369,6 +1369,18 @@ def ext_call(it, dotted, args, kw):
         return lift2(lambda a, b: a if is_nan(a) else (b if is_nan(b) else f_min(a, b)), args[0], args[1])
     if name == "np.clip":
         return vec_method(it, args[0], "clip", list(args[1:]), kw) if isinstance(args[0], Vec) else f_min(f_max(args[0], args[1]), args[2])
+    if name == "np.where" and len(args) == 1 and isinstance(args[0], Vec) and all(isinstance(x, bool) for x in args[0].v):
+        r = Vec([i for i, x in enumerate(args[0].v) if x])
+        r.exact = True
+        return (r,)
+    if name == "np.diff" and len(args) == 1 and isinstance(args[0], Vec) and args[0].exact and all(num(x) and not isinstance(x, bool) for x in args[0].v):
+        r = Vec([b - a for a, b in zip(args[0].v, args[0].v[1:])])
+        r.exact = True
+        return r
+    if name == "np.array" and args and isinstance(args[0], str) and kw.get("dtype") == "c":
+        r = Vec([ch.encode() for ch in args[0]])            # an array of single bytes
+        r.exact = True
+        return r
     if name == "np.where" and len(args) == 3:
         c = args[0]
         if isinstance(c, Vec):
